@@ -1482,6 +1482,13 @@ func (P *Prog) checkPooledMapOwned(r *Result, rule string) {
 			note(types.NewPointer(s.elem))
 		}
 	}
+	// the execution and node contexts are per-call objects whether or not they are recycled: a caller's map adopted
+	// as the values of an ExecCtx that is allocated fresh for every call still receives that call's writes
+	for _, n := range []*types.Named{P.roles.ExecCtx, P.roles.SchemaCtx} {
+		if n != nil {
+			note(types.NewPointer(n))
+		}
+	}
 	for _, fn := range P.Funcs {
 		eachInstr(fn, func(_ *ssa.BasicBlock, _ int, in ssa.Instruction) {
 			if ci := callOf(in); isSyncPoolMethod(ci, "Put") && len(ci.args()) == 2 {
